@@ -266,6 +266,8 @@ var documented = map[int][]int{1: {0}, 2: {0, 100, 1000}, 3: {2, 4, 8}, 4: {2, 3
 // job: {"inputs":[{"id":..,"mode":..,"n":..,"seed":..}], "runners": true}
 func resultsCmd(job []byte, out *Out) error {
 	var j struct {
+		SerialHunt int   `json:"serialHunt"`
+		HuntSeed   int64 `json:"huntSeed"`
 		Inputs []struct {
 			ID   int    `json:"id"`
 			Mode string `json:"mode"`
@@ -275,6 +277,23 @@ func resultsCmd(job []byte, out *Out) error {
 	}
 	if err := json.Unmarshal(job, &j); err != nil {
 		return err
+	}
+	// inputs on which exactly one of the two P-values of the overlapping-subsequence test is below 0.01 (about 1 % of
+	// random sequences): found by scanning seeds with the real test; the registry result on them is then judged by TLC
+	found := 0
+	for sd := int64(0); sd < int64(j.SerialHunt) && found < 12; sd++ {
+		bits := genBits("uni", 1024, j.HuntSeed+sd)
+		data := bitsToBytes(bits)
+		var r *randomness.TestResult
+		func() {
+			defer func() { recover() }()
+			r = randomness.OverlappingTemplateMatching(data)
+		}()
+		if r == nil || (r.P >= 0.01) == (r.P2 >= 0.01) {
+			continue
+		}
+		found++
+		out.Emit(R{"ev": "res", "id": -1, "t": "serial", "param": 5, "n": 1024, "mode": "serialhunt", "seed": j.HuntSeed + sd, "panic": "", "isrunner": true, "mutated": false, "r": fromResult(r)})
 	}
 	for _, in := range j.Inputs {
 		bits := genBits(in.Mode, in.N, in.Seed)
